@@ -65,7 +65,44 @@ let ora_of tbl =
     | [_; bits; k; er] -> ((z_of_hexstr bits, nat_of_int (int_of_string k)), er = "1")
     | _ -> failwith "table"
 
+(* print channels: the model's chunks folded into the model of the sink each channel of the harness uses *)
+let rec firstn_z n l = if n <= 0 then [] else match l with [] -> [] | x :: r -> x :: firstn_z (n - 1) r
+let chunk_desc = function
+  | CCh (ch, n) -> if n = z_of_int 1 then " c" ^ string_of_z ch else " c" ^ string_of_z ch ^ "x" ^ string_of_z n
+  | CBuf (d, size, count) ->
+    let bytes = if sign_of_z size < 0 then cstr0 d else firstn_z (int_of_z size) d in
+    " b" ^ hex_of_bytes bytes ^ "/" ^ string_of_z size ^ "/" ^ string_of_z count
+let channels prefix r =
+  let names = [("xstr", 0); ("fmem", 1); ("file", 1); ("count", 2); ("rec", 3); ("alloc", 4)] in
+  let answer kind = match r with
+    | Err e -> ((if kind = 2 then "#" else "") ^ "err " ^ err_name e)
+    | Ok cs -> (match kind with
+        | 0 -> "ok " ^ hex_of_bytes (chan_xstr cs)
+        | 1 -> "ok " ^ hex_of_bytes (chan_fstream cs)
+        | 2 -> "ok #" ^ string_of_z (chan_count cs)
+        | 3 -> "ok " ^ hex_of_bytes (chunks_bytes cs)
+        | _ -> "ok " ^ hex_of_bytes (cstr0 (chan_xstr cs))) in
+  let memo = Hashtbl.create 8 in
+  let answer k = match Hashtbl.find_opt memo k with Some a -> a | None -> let a = answer k in Hashtbl.add memo k a; a in
+  let res = List.map (fun (n, k) -> (prefix ^ "." ^ n, answer k)) names in
+  let keys = List.fold_left (fun acc (_, a) -> if List.mem a acc then acc else acc @ [a]) [] res in
+  String.concat " | " (List.map (fun a ->
+    let shown = if String.length a > 0 && a.[0] = '#' then String.sub a 1 (String.length a - 1) else a in
+    shown ^ " " ^ String.concat "," (List.map fst (List.filter (fun (_, b) -> b = a) res))) keys)
+let with_tree toks f =
+  ftab := [];
+  let (v, _) = rd_val toks in
+  f (fun z -> List.assoc z !ftab) v
+
 let handle = function
+  | "chan" :: pf :: toks -> with_tree toks (fun fo v -> channels "n" (as_json_chunks fo (z_of_string pf) v))
+  | "jchan" :: pf :: toks -> with_tree toks (fun fo v -> channels "b" (jbl_as_json_chunks fo (z_of_string pf) v))
+  | "chunks" :: pf :: toks -> with_tree toks (fun fo v ->
+      match as_json_chunks fo (z_of_string pf) v with
+      | Err e -> "err " ^ err_name e | Ok cs -> "ok" ^ String.concat "" (List.map chunk_desc cs))
+  | "jchunks" :: pf :: toks -> with_tree toks (fun fo v ->
+      match jbl_as_json_chunks fo (z_of_string pf) v with
+      | Err e -> "err " ^ err_name e | Ok cs -> "ok" ^ String.concat "" (List.map chunk_desc cs))
   | ["parse"; h; tbl] ->
     (match from_json (ora_of tbl) (trunc0 (bytes_of_hex h)) with
      | Err e -> "err " ^ err_name e
